@@ -34,6 +34,20 @@ def MAX : Nat := 2^64 - 1
 @[inline] def cdiv (a b : Nat) : R Nat := if b = 0 then .error .divZero else .ok (a / b)
 @[inline] def crem (a b : Nat) : R Nat := if b = 0 then .error .divZero else .ok (a % b)
 
+/-- `n as isize` (two's complement reinterpretation) -/
+@[inline] def isizeOfUsize (n : Nat) : Int := if n < 2^63 then (n : Int) else (n : Int) - 2^64
+/-- `i as usize` -/
+@[inline] def usizeOfIsize (i : Int) : Nat := (i % 2^64).toNat
+@[inline] def inRangeI (i : Int) : Bool := decide (-(2^63 : Int) ≤ i) && decide (i < 2^63)
+/-- two's complement wrap of an `isize` result -/
+@[inline] def wrapI (i : Int) : Int := isizeOfUsize (usizeOfIsize i)
+@[inline] def iadd (c : Cfg) (a b : Int) : R Int :=
+  if inRangeI (a + b) then .ok (a + b) else if c.checked then .error .overflow else .ok (wrapI (a + b))
+@[inline] def isub (c : Cfg) (a b : Int) : R Int :=
+  if inRangeI (a - b) then .ok (a - b) else if c.checked then .error .overflow else .ok (wrapI (a - b))
+@[inline] def ineg (c : Cfg) (a : Int) : R Int :=
+  if inRangeI (-a) then .ok (-a) else if c.checked then .error .overflow else .ok (wrapI (-a))
+
 /-- `x.count_ones()` (core intrinsic, by its meaning) -/
 def countOnes (x : Nat) : Nat := (List.range 64).countP (fun i => x.testBit i)
 /-- `x.trailing_zeros()`: 64 for 0 -/
@@ -78,6 +92,19 @@ def forCount {σ} (body : Nat → σ → R σ) : Nat → Nat → σ → R σ
   | i, n+1, s => (body i s).bind fun s' => forCount body (i+1) n s'
 @[inline] def forRange {σ} (lo hi : Nat) (init : σ) (body : Nat → σ → R σ) : R σ :=
   forCount body lo (hi - lo) init
+
+/-- `for i in (lo..hi).step_by(step)` without `break`/`return` (`step_by(0)` panics) -/
+@[inline] def forStep {σ} (lo hi step : Nat) (init : σ) (body : Nat → σ → R σ) : R σ :=
+  if step = 0 then .error .assertFail
+  else forCount (fun j s => body (lo + (j - lo) * step) s) lo ((hi - lo + step - 1) / step) init
+
+/-- `for i in (lo..hi).rev()` -/
+@[inline] def forRangeRev {σ} (lo hi : Nat) (init : σ) (body : Nat → σ → R σ) : R σ :=
+  forCount (fun j s => body (hi - 1 - (j - lo)) s) lo (hi - lo) init
+/-- `v.iter().enumerate()` -/
+@[inline] def enumerate {α} (xs : List α) : List (Nat × α) := (List.range xs.length).zip xs
+/-- `v.iter().sum::<usize>()` (overflow is a panic in checked builds) -/
+def sum (c : Cfg) (v : Array Nat) : R Nat := v.toList.foldlM (fun acc x => cadd c acc x) 0
 
 /-- `for x in list { body }` without `break`/`return` -/
 def forList {α σ} (body : α → σ → R σ) : List α → σ → R σ
